@@ -19,6 +19,9 @@
 mod dsets;
 mod pump;
 mod seeds;
+#[path = "../c11/graph.rs"]
+#[allow(dead_code)]
+mod graph;
 
 use dsets::DSet;
 use mccore::engine::{guarded, kind_tag};
@@ -874,6 +877,66 @@ fn main() {
         "a\\b", "😀", "\u{feff}a", "a\r\n",
     ];
     let n_variants = 13u64;
+    // ------------------------------------------------------------------ template sets (graphs)
+    // Registration of SETS of templates: every extends/include graph on 3 templates over the
+    // structure alphabet of C11 (incl. self-loops, cycles entered from a tail, missing targets):
+    // add_raw_templates must come back with Ok or Err — in one batch and one template at a time
+    // (seeded change C06-2: a cycle walk that never returned for `a` includes `b`, `b` extends `c`,
+    // `c` extends itself).
+    {
+        use graph::{AlphabetSpec, Mode, Naming, Place};
+        let spec = AlphabetSpec {
+            n: 3,
+            missing_extends: true,
+            missing_include: true,
+            child_modes: vec![Mode::Absent, Mode::Super],
+            places: vec![Place::Top, Place::Block],
+            max_includes: 1,
+        };
+        let configs = spec.configs();
+        let radix = configs.len() as u64;
+        let nm = Naming::plain(3);
+        let sources = |item: u64| -> Vec<(String, String)> {
+            let idx = graph::decode(item, 3, radix);
+            (0..3).map(|i| (nm.names[i].clone(), graph::source(i, &configs[idx[i]], &nm))).collect()
+        };
+        let fam = Family::new(
+            "template-sets",
+            radix * radix * radix,
+            &format!("all {radix}^3 extends/include graphs on 3 templates ({}), registered in one batch and one template at a time in both directions: Ok or Err, no panic / hang / crash", spec.describe()),
+        )
+        .timeout(20.0)
+        .budget(300.0)
+        .describe(|i| json!({"family": "template-sets", "templates": sources(i)}))
+        .crash_signature(|_, kind| format!("{kind}:add_raw_templates:template-set"));
+        run.family(fam, |item, acc| {
+            let tpls = sources(item);
+            let case = || json!({"family": "template-sets", "templates": tpls});
+            let mut outcomes = String::new();
+            // one batch
+            let mut t = tera::Tera::default();
+            match guarded(|| t.add_raw_templates(tpls.iter().map(|(n, s)| (n.as_str(), s.as_str())))) {
+                Ok(Ok(())) => outcomes.push_str("ok"),
+                Ok(Err(e)) => {
+                    let _ = guarded(|| e.to_string());
+                    outcomes.push_str("err");
+                }
+                Err(p) => acc.violation("panic:add_raw_templates:template-set", format!("add_raw_templates panicked: {p}"), case),
+            }
+            // one at a time, forwards and backwards (most of these calls fail: dangling targets)
+            for rev in [false, true] {
+                let mut t = tera::Tera::default();
+                let order: Vec<usize> = if rev { vec![2, 1, 0] } else { vec![0, 1, 2] };
+                for i in order {
+                    if let Err(p) = guarded(|| t.add_raw_template(&tpls[i].0, &tpls[i].1)) {
+                        acc.violation("panic:add_raw_template:template-set", format!("add_raw_template panicked: {p}"), case);
+                    }
+                }
+            }
+            acc.case(true, &format!("batch:{outcomes}"));
+        });
+    }
+
     let name_dsets = [d0, d2];
     {
         let total = names.len() as u64 * n_variants * name_dsets.len() as u64;
